@@ -9,7 +9,8 @@
      1  a line's overall status is not Scheduler.Status of its node table (for any admissible value of the hidden flags)
      2  the first line is not S0 (written by the main thread, every step not started, overall not started)
      3  more than two lines by the main thread / more than one by the first-status goroutine
-     4  the per-notification snapshots are not a chain of scheduler states (a later one is not reachable from an earlier one)
+     4  the lines, in file order, are not ONE chain of scheduler states (since 7f2c2d0 every snapshot is collected and appended
+        under statusLock: ProofsChain.file_is_a_chain)
      5  a line is not a state from which the final state is reachable
      6  a live answer does not carry the forced status `running`
      7  the live answers are not a chain of scheduler states
@@ -103,7 +104,7 @@ Definition case_errors (c : ccase) : list nat :=
             | _ => [2]
             end in
   let e3 := if (length mains <=? 2) && (length fss <=? 1) then [] else [3] in
-  let e4 := if chainb (map (fun w => tbl_of_snapc (snd w)) cons) then [] else [4] in
+  let e4 := if chainb (map (fun w => tbl_of_snapc (snd w)) ws) then [] else [4] in
   let e5 := match final with
             | Some f => if forallb (fun w => tbl_reachb (tbl_of_snapc (snd w)) f) ws then [] else [5]
             | None => []
@@ -152,7 +153,7 @@ Proof. vm_compute. reflexivity. Qed.
 (* since 7f2c2d0 a line after the final status is not a model behaviour (before: accepted - findings F8b/F8c) *)
 Example reject_line_after_final :
   case_errors (1, [(0, (0, (0, 0), [(0,0)], [])); (1, (4, (0, 0), [(4,0)], [])); (0, (4, (0, 0), [(4,0)], []));
-                   (2, (1, (0, 0), [(1,0)], []))], []) = [9].
+                   (2, (1, (0, 0), [(1,0)], []))], []) = [4; 9].
 Proof. vm_compute. reflexivity. Qed.
 
 (* other deviations: an overall status that is not Scheduler.Status of any earlier table; a snapshot going backwards *)
@@ -160,5 +161,5 @@ Example reject_wrong_overall :
   case_errors (1, [(0, (0, (0, 0), [(0,0)], [])); (1, (2, (0, 0), [(4,0)], []))], []) = [1].
 Proof. vm_compute. reflexivity. Qed.
 Example reject_backwards :
-  case_errors (1, [(0, (0, (0, 0), [(0,0)], [])); (1, (4, (0, 0), [(4,0)], [])); (1, (1, (0, 0), [(1,0)], []))], []) = [4].
+  case_errors (1, [(0, (0, (0, 0), [(0,0)], [])); (1, (4, (0, 0), [(4,0)], [])); (2, (1, (0, 0), [(1,0)], []))], []) = [4].
 Proof. vm_compute. reflexivity. Qed.
